@@ -124,46 +124,74 @@ fn pos_fin(x: f64) -> bool {
 }
 
 #[inline(always)]
+fn same(a: f64, b: f64) -> bool {
+    a.to_bits() == b.to_bits() || (a.is_nan() && b.is_nan())
+}
+
+#[inline(always)]
 fn invalid(est: f64) -> bool {
     (!est.is_finite()) || est == 0.0
 }
 
-/// Clauses ND / KEEP / FILL for one element.  `est_invalid` says whether the estimate is NaN / +-inf / 0.
+/// (ND) + (FILL) + (RANGE) for one element; needs no knowledge of the estimate.
 #[inline(always)]
-fn check_elem(old_std: f64, old_inv: f64, new_std: f64, new_inv: f64, est_invalid: bool, fill: Option<f64>) {
-    // (ND)
-    if pos_fin(old_std) && pos_fin(old_inv) {
-        assert!(pos_fin(new_std), "C08.2 ND: new std finite and > 0");
-        assert!(pos_fin(new_inv), "C08.2 ND: new inv_std finite and > 0");
-    }
-    if est_invalid {
-        match fill {
-            None => {
-                // (KEEP)
-                assert!(new_std.to_bits() == old_std.to_bits(), "C08.2 KEEP: std bit-identical");
-                assert!(new_inv.to_bits() == old_inv.to_bits(), "C08.2 KEEP: inv_std bit-identical");
-            }
-            Some(_) => {
-                // (FILL)  fill == 1.0 in every harness: the scale is (re)initialised whatever the old one was.
-                // (Exact equality with 1.0 would need uniqueness of CBMC's sqrt witness for sqrt(1.0) — a
-                // universally quantified multiplier problem that does not terminate; positivity is what C08 needs.)
-                assert!(pos_fin(new_std), "C08.2 FILL: std finite and > 0 after fill");
-                assert!(pos_fin(new_inv), "C08.2 FILL: inv_std finite and > 0 after fill");
+fn check_nd(old_std: f64, old_inv: f64, new_std: f64, new_inv: f64, fill: Option<f64>, range: bool) {
+    match fill {
+        None => {
+            // (ND)
+            if pos_fin(old_std) && pos_fin(old_inv) {
+                assert!(pos_fin(new_std), "C08.2 ND: new std finite and > 0");
+                assert!(pos_fin(new_inv), "C08.2 ND: new inv_std finite and > 0");
             }
         }
+        Some(_) => {
+            // (FILL) with a fill value the scale is (re)initialised whatever the old one was
+            assert!(pos_fin(new_std), "C08.2 FILL: std finite and > 0 with fill_invalid = Some(1.0)");
+            assert!(pos_fin(new_inv), "C08.2 FILL: inv_std finite and > 0 with fill_invalid = Some(1.0)");
+        }
     }
+    if range {
+        // (RANGE) a value that was written lies in sqrt(clamp range) = [1e-10, 1e10] (factor 2 slack for
+        // the two roundings); this is what the clamp is for.
+        if new_std.to_bits() != old_std.to_bits() {
+            assert!(new_std >= 0.5e-10 && new_std <= 2e10, "C08.2 RANGE: written std within sqrt(clamp)");
+        }
+        if new_inv.to_bits() != old_inv.to_bits() {
+            assert!(new_inv >= 0.5e-10 && new_inv <= 2e10, "C08.2 RANGE: written inv_std within sqrt(clamp)");
+        }
+    }
+}
+
+/// (KEEP) for one element.  `est_invalid`: the estimate is NaN / +-inf / 0.
+#[inline(always)]
+fn check_keep(old_std: f64, old_inv: f64, new_std: f64, new_inv: f64, est_invalid: bool) {
+    // The KEEP harnesses run on the SMT back-end (cvc5, FloatingPoint theory) which has ONE NaN value:
+    // the bit pattern of a NaN is not observable there, so "bit-identical" is stated as
+    // "same bits, or both NaN" (an old scale that is NaN is garbage anyway; for every non-NaN old value
+    // — including +-0, +-inf, subnormals — this is bit-identity).
+    if est_invalid {
+        assert!(same(new_std, old_std), "C08.2 KEEP: std bit-identical");
+        assert!(same(new_inv, old_inv), "C08.2 KEEP: inv_std bit-identical");
+    }
+}
+
+#[derive(Clone, Copy, PartialEq)]
+enum Mode {
+    Nd,      // ND + FILL, fill_invalid symbolic in {None, Some(1.0)}            (SAT back-end)
+    Range,   // RANGE, fill_invalid symbolic                                      (SAT back-end)
+    Keep,    // KEEP, fill_invalid = None; recomputes the estimate => needs term sharing (SMT back-end)
 }
 
 // ------------------------------------------------------------------------------------------------
 // draw_grad
 // ------------------------------------------------------------------------------------------------
-fn body_draw_grad<const D: usize>() {
+fn body_draw_grad<const D: usize>(mode: Mode) {
     let mut math = mk(D);
     let old_std: [f64; D] = any_arr();
     let old_inv: [f64; D] = any_arr();
     let dv: [f64; D] = any_arr();
     let gv: [f64; D] = any_arr();
-    let fill = any_fill();
+    let fill = if mode == Mode::Keep { None } else { any_fill() };
 
     let mut std = vec_of(&mut math, &old_std);
     let mut inv_std = vec_of(&mut math, &old_inv);
@@ -178,41 +206,60 @@ fn body_draw_grad<const D: usize>() {
     let gv_after: [f64; D] = read(&mut math, &grad_var);
     let mut i = 0;
     while i < D {
-        // est = sqrt(q), q = draw_var/grad_var.  IEEE-754 sqrt: sqrt(q) is NaN iff q is NaN or q < 0,
-        // +inf iff q = +inf, (+-)0 iff q = +-0, and finite > 0 for every finite q > 0 (also subnormal q).
-        // Hence "est is NaN/+-inf/0"  <=>  not (q finite and q > 0); stated on q so that the harness does
-        // not need a second instance of CBMC's (nondeterministic-witness) sqrt model.
-        let q = dv[i] / gv[i];
-        let est_invalid = !(q.is_finite() && q > 0.0);
-        check_elem(old_std[i], old_inv[i], new_std[i], new_inv[i], est_invalid, fill);
-        assert!(dv_after[i].to_bits() == dv[i].to_bits(), "inputs untouched");
-        assert!(gv_after[i].to_bits() == gv[i].to_bits(), "inputs untouched");
+        match mode {
+            Mode::Nd => check_nd(old_std[i], old_inv[i], new_std[i], new_inv[i], fill, false),
+            Mode::Range => check_nd(old_std[i], old_inv[i], new_std[i], new_inv[i], fill, true),
+            Mode::Keep => {
+                // est = sqrt(q), q = draw_var/grad_var.  IEEE-754 sqrt: sqrt(q) is NaN iff q is NaN or q < 0,
+                // +inf iff q = +inf, (+-)0 iff q = +-0, finite > 0 for every finite q > 0 (also subnormal).
+                // Hence "est is NaN/+-inf/0" <=> not (q finite and q > 0); stated on q so that no second
+                // instance of CBMC's (nondeterministic-witness) sqrt model is needed.
+                let q = dv[i] / gv[i];
+                check_keep(old_std[i], old_inv[i], new_std[i], new_inv[i], !(q.is_finite() && q > 0.0));
+            }
+        }
+        assert!(same(dv_after[i], dv[i]), "inputs untouched");
+        assert!(same(gv_after[i], gv[i]), "inputs untouched");
         i += 1;
     }
 }
 
 #[kani::proof]
 #[kani::unwind(3)]
-fn var_draw_grad_dim1() {
-    body_draw_grad::<1>();
+fn var_draw_grad_nd_dim1() {
+    body_draw_grad::<1>(Mode::Nd);
 }
-
+#[kani::proof]
+#[kani::unwind(3)]
+fn var_draw_grad_range_dim1() {
+    body_draw_grad::<1>(Mode::Range);
+}
+#[kani::proof]
+#[kani::unwind(3)]
+fn var_draw_grad_keep_dim1() {
+    body_draw_grad::<1>(Mode::Keep);
+}
 #[kani::proof]
 #[kani::unwind(4)]
-fn var_draw_grad_dim2() {
-    body_draw_grad::<2>();
+fn var_draw_grad_nd_dim2() {
+    body_draw_grad::<2>(Mode::Nd);
+}
+#[kani::proof]
+#[kani::unwind(4)]
+fn var_draw_grad_keep_dim2() {
+    body_draw_grad::<2>(Mode::Keep);
 }
 
 // ------------------------------------------------------------------------------------------------
 // draw
 // ------------------------------------------------------------------------------------------------
-fn body_draw<const D: usize>() {
+fn body_draw<const D: usize>(mode: Mode) {
     let mut math = mk(D);
     let old_std: [f64; D] = any_arr();
     let old_inv: [f64; D] = any_arr();
     let dv: [f64; D] = any_arr();
     let scale: f64 = kani::any();
-    let fill = any_fill();
+    let fill = if mode == Mode::Keep { None } else { any_fill() };
 
     let mut std = vec_of(&mut math, &old_std);
     let mut inv_std = vec_of(&mut math, &old_inv);
@@ -225,29 +272,49 @@ fn body_draw<const D: usize>() {
     let dv_after: [f64; D] = read(&mut math, &draw_var);
     let mut i = 0;
     while i < D {
-        let est = dv[i] * scale;
-        check_elem(old_std[i], old_inv[i], new_std[i], new_inv[i], invalid(est), fill);
-        assert!(dv_after[i].to_bits() == dv[i].to_bits(), "inputs untouched");
+        match mode {
+            Mode::Nd => check_nd(old_std[i], old_inv[i], new_std[i], new_inv[i], fill, false),
+            Mode::Range => check_nd(old_std[i], old_inv[i], new_std[i], new_inv[i], fill, true),
+            Mode::Keep => {
+                let est = dv[i] * scale;
+                check_keep(old_std[i], old_inv[i], new_std[i], new_inv[i], invalid(est));
+            }
+        }
+        assert!(same(dv_after[i], dv[i]), "inputs untouched");
         i += 1;
     }
 }
 
 #[kani::proof]
 #[kani::unwind(3)]
-fn var_draw_dim1() {
-    body_draw::<1>();
+fn var_draw_nd_dim1() {
+    body_draw::<1>(Mode::Nd);
 }
-
+#[kani::proof]
+#[kani::unwind(3)]
+fn var_draw_range_dim1() {
+    body_draw::<1>(Mode::Range);
+}
+#[kani::proof]
+#[kani::unwind(3)]
+fn var_draw_keep_dim1() {
+    body_draw::<1>(Mode::Keep);
+}
 #[kani::proof]
 #[kani::unwind(4)]
-fn var_draw_dim2() {
-    body_draw::<2>();
+fn var_draw_nd_dim2() {
+    body_draw::<2>(Mode::Nd);
+}
+#[kani::proof]
+#[kani::unwind(4)]
+fn var_draw_keep_dim2() {
+    body_draw::<2>(Mode::Keep);
 }
 
 // ------------------------------------------------------------------------------------------------
 // grad  (always overwrites; fill_invalid is a plain f64, the caller passes 1.0)
 // ------------------------------------------------------------------------------------------------
-fn body_grad<const D: usize>() {
+fn body_grad<const D: usize>(range: bool) {
     let mut math = mk(D);
     let old_std: [f64; D] = any_arr();
     let old_inv: [f64; D] = any_arr();
@@ -267,61 +334,27 @@ fn body_grad<const D: usize>() {
         // (ND) unconditionally: this kernel initialises the scales, the old values are irrelevant
         assert!(pos_fin(new_std[i]), "C08.2 ND(grad): new std finite and > 0");
         assert!(pos_fin(new_inv[i]), "C08.2 ND(grad): new inv_std finite and > 0");
-        assert!(g_after[i].to_bits() == g[i].to_bits(), "inputs untouched");
+        if range {
+            assert!(new_std[i] >= 0.5e-10 && new_std[i] <= 2e10, "C08.2 RANGE(grad): std within sqrt(clamp)");
+            assert!(new_inv[i] >= 0.5e-10 && new_inv[i] <= 2e10, "C08.2 RANGE(grad): inv_std within sqrt(clamp)");
+        }
+        assert!(same(g_after[i], g[i]), "inputs untouched");
         i += 1;
     }
 }
 
 #[kani::proof]
 #[kani::unwind(3)]
-fn var_grad_dim1() {
-    body_grad::<1>();
+fn var_grad_nd_dim1() {
+    body_grad::<1>(false);
 }
-
+#[kani::proof]
+#[kani::unwind(3)]
+fn var_grad_range_dim1() {
+    body_grad::<1>(true);
+}
 #[kani::proof]
 #[kani::unwind(4)]
-fn var_grad_dim2() {
-    body_grad::<2>();
+fn var_grad_nd_dim2() {
+    body_grad::<2>(false);
 }
-
-// ---- TEMP probes
-fn probe(which: u8) {
-    let mut math = mk(1);
-    let old_std: [f64; 1] = any_arr();
-    let old_inv: [f64; 1] = any_arr();
-    let dv: [f64; 1] = any_arr();
-    let gv: [f64; 1] = any_arr();
-    let fill = if which == 3 { Some(1.0) } else if which == 4 { None } else { any_fill() };
-    let mut std = vec_of(&mut math, &old_std);
-    let mut inv_std = vec_of(&mut math, &old_inv);
-    let draw_var = vec_of(&mut math, &dv);
-    let grad_var = vec_of(&mut math, &gv);
-    math.array_update_var_inv_std_draw_grad(&mut inv_std, &mut std, &draw_var, &grad_var, fill, CLAMP);
-    let new_std: [f64; 1] = read(&mut math, &std);
-    let new_inv: [f64; 1] = read(&mut math, &inv_std);
-    if which == 1 || which == 3 || which == 4 {
-        if pos_fin(old_std[0]) && pos_fin(old_inv[0]) {
-            assert!(pos_fin(new_std[0]));
-            assert!(pos_fin(new_inv[0]));
-        }
-    }
-    if which == 2 {
-        let q = dv[0] / gv[0];
-        if !(q.is_finite() && q > 0.0) && fill.is_none() {
-            assert!(new_std[0].to_bits() == old_std[0].to_bits());
-            assert!(new_inv[0].to_bits() == old_inv[0].to_bits());
-        }
-    }
-}
-#[kani::proof]
-#[kani::unwind(3)]
-fn probe_nd() { probe(1) }
-#[kani::proof]
-#[kani::unwind(3)]
-fn probe_keep() { probe(2) }
-#[kani::proof]
-#[kani::unwind(3)]
-fn probe_nd_some() { probe(3) }
-#[kani::proof]
-#[kani::unwind(3)]
-fn probe_nd_none() { probe(4) }
